@@ -11,6 +11,11 @@ CHECKS = {
          "Every one of the 2^32 f32 bit patterns (and its f64 widening, plus 51 doubles around each code transition) is run through each integer fast path (sRGB, Rec OETF, Adobe, P3 gamma u8; ProPhoto u16) with the table index asserted in range by the palette_verif hook; monotonicity is checked on every successor pair, saturation at both ends, the 0.6-code accuracy bound at both ends of every run of equal codes (sufficient by monotonicity of both curves), every decoder code against the closed form, decode->encode identity for every code, and the generic float curves on f32/f64 chains with complete windows round every knee. The integer-path verdict is not bounded: the space is complete.",
          "Trusts libm pow in the f64 reference (<1e-13), the catch_unwind observation of hook panics, and that f64 inputs reach the tables only through `as f32` (checked on all f32-representable doubles and around transitions).",
          "§4 C05"),
+ "C06": ("model_checking",
+         "exhaustive enumeration of complete source spaces (all 2^32 f32 patterns per float->uint target, every u8/u16 value, every u32 value in the thorough tier) walked as successor chains on the real IntoStimulus impls, against an exact integer-arithmetic reference model",
+         "All 2^32 f32 bit patterns are converted to u8, u16, u32, u64 and u128 (and, widened, through the f64 source), each result compared with the set of integers within 1/2 + one rounding of x*MAX computed in exact 128/256-bit integer arithmetic; monotonicity on every successor pair, saturation for every x<=0, -inf, x>=1, +inf and NaN. Integer sources: every u8 and u16, every u32 (thorough; quick: every 5th + complete windows + lattice) and lattices for u64/u128, to all seven formats: monotone, ends exact, proportional, widen->narrow and int->float->int identities. f64 sources on a lattice built from every rounding tie, every power of two and the magnitudes where the magic-number trick stops being valid. The into_format wrappers of Rgb/Rgba/Luma/Lumaa/Alpha/Hsv/Hsl/Hwb are bitwise compared with the component function.",
+         "f64 sources that are not f32-representable are covered only on the lattice; the oracle's W (float type in which the product is rounded) is f32 for f32->u8/u16 and f64 otherwise, as the statement's '53 significant bits' clause implies.",
+         "§4 C06"),
 }
 PENDING = {}
 ALL = ["C%02d" % i for i in range(1, 21)]
